@@ -164,6 +164,36 @@ pub fn run(rep: &mut Rep) {
             }
         }
     }
+    // publishes issued before run() is first polled: the window applies to them in the order they were issued
+    rep.note("early publishes: 2-6 QoS 0/1/2 publishes queued before run() is first polled under Receive Maximum 1 / 2 / 3: accepted and refused exactly as if issued one by one while running, probe at the end");
+    for r in [1u16, 2, 3] {
+        for n in 2..=6usize {
+            for variant in 0..2usize {
+                let id = format!("early:{r}:{n}:{variant}");
+                ridx += 1;
+                if !rep.take(ridx, &id) {
+                    continue;
+                }
+                let kinds = [Kind::Pub1, Kind::Pub2, Kind::Pub0, Kind::Pub1, Kind::Pub2, Kind::Pub1];
+                let early: Vec<Kind> = (0..n).map(|j| kinds[(j + variant) % kinds.len()]).collect();
+                let mut w = World::boot_early(WorldCfg { seed: rep.seed, receive_max: Some(r), h3: true, via_auth: Some(variant == 1), ..Default::default() }, &early);
+                w.settle_check();
+                for _ in 0..3 {
+                    for (i, st) in w.ackable() {
+                        w.deliver_ack(i, st, 0, 0);
+                        w.settle_check();
+                    }
+                }
+                probe_and_report(rep, &mut w, &id);
+                finish(&mut w);
+                rep.add("evaluations", 1);
+                rep.add("early_publish_cases", 1);
+                rep.distinct(&("early", r, n, variant));
+                harvest(rep, &mut w, &id);
+                add_counters(rep, &w);
+            }
+        }
+    }
     // auxiliary (outside the stated domain of conformant acknowledgements, sound on any tree that bounds the quota by R):
     // an acknowledgement for an unknown identifier arriving while nothing is outstanding must not take slots away
     rep.note("auxiliary: with nothing outstanding, a stray PUBACK / PUBCOMP / refusing PUBREC for an unknown identifier leaves all R slots available (R in {1,3,65535,absent}), before and after completed exchanges");
